@@ -48,6 +48,7 @@ Step ==
      \/ Ev.ev = "T" /\ Tick
      \/ Ev.ev = "Q" /\ UNCHANGED svars /\ ev' = [kind |-> "Q"]
      \/ Ev.ev = "P" /\ UNCHANGED svars /\ ev' = [kind |-> "P"]
+     \/ Ev.ev = "F" /\ UNCHANGED svars /\ ev' = [kind |-> "F"]          \* a transport was created: its scope is judged by T_C09scope
      \/ Ev.ev = "U" /\ PitUpdate(KeySet(Ev.R), Dins)
      \/ Ev.ev = "X" /\ DnlExpire({ [name |-> Ev.X[x].name, nonce |-> Ev.X[x].nonce] : x \in 1..Len(Ev.X) } \cap DOMAIN dnl)
      \/ Ev.ev = "E" /\
@@ -133,5 +134,6 @@ T_C09drop == [][Live => /\ ((Ev.ev = "I" /\ ~Local(Ev.i.f) /\ IsLocalhost(Ev.i.n
                               (Len(Ev.oi) = 0 /\ Len(Ev.od) = 0 /\ Ev.obs.ents = Cardinality(DOMAIN pit) /\ Ev.obs.csn = Cardinality(DOMAIN cs)))
                         /\ ((Ev.ev = "D" /\ ~Local(Ev.i.f) /\ IsLocalhost(Ev.i.n)) =>
                               (Len(Ev.o.D) = 0 /\ Ev.obs.ents = Cardinality(DOMAIN pit) /\ Ev.obs.csn = Cardinality(DOMAIN cs)))]_tvars
-T_C09 == P_C09 /\ T_C09obs /\ T_C09drop
+T_C09scope == [][(Live /\ Ev.ev = "F") => Ev.scope = FaceScope(Ev.kind, Ev.loopback)]_tvars
+T_C09 == P_C09 /\ T_C09obs /\ T_C09drop /\ T_C09scope
 ====
